@@ -45,7 +45,7 @@ TProto ==
   /\ Ev("proto") /\ Read
   /\ LET e == Trace[l] IN
      /\ inst.live
-     /\ (LayerM /\ ~inst.legacy) =>
+     /\ (LayerM /\ inst.lbenc) =>
           Report(l, "M:encoding",
                  IF Len(inst.nodes) = 0 THEN (IF e.empty = 1 THEN {} ELSE {"non-empty"})
                  ELSE IF e.empty = 1 THEN {"empty"} ELSE EncodingDiff(inst, e))
@@ -187,7 +187,9 @@ TIndex ==
 LegacyContent(e) ==
   IF e.v3 = 1
   THEN [Content(e.keys, e.vals, e.hasvals, <<0, 0, 0, 0>>, FALSE) EXCEPT !.legacy = TRUE]
-  ELSE [Content(e.keys, e.vals, e.hasvals, e.opt, TRUE) EXCEPT !.legacy = TRUE]
+  \* a loaded 0.5.10 stream keeps its word-granular select index: its stored form is
+  \* not the one Encode describes (answers are the same), so Level B is not compared
+  ELSE [Content(e.keys, e.vals, e.hasvals, e.opt, TRUE) EXCEPT !.legacy = TRUE, !.lbenc = FALSE]
 
 TLegacy ==
   /\ Ev("legacy")
